@@ -252,6 +252,10 @@ def _validate_shard(args):
     ok = r["rc"] == 0 and end is not None
     mism = [(int(m.group(1)), int(m.group(2)), m.group(3), m.group(4), m.group(5) or "")
             for m in _MIS.finditer(out)]
+    if len(mism) != out.count('<<"MISMATCH"'):
+        # a rejection the runner cannot attribute to an episode must never be lost
+        ok = False
+        out += "\n[runner] unparseable MISMATCH line(s) in TLC output\n"
     return {"ok": ok, "mismatches": mism, "out": out, "generated": r["generated"],
             "distinct": r["distinct"], "events": int(end.group(1)) if end else 0, "wall": r["wall"]}
 
